@@ -113,14 +113,22 @@ int ops_res(char **a, int na)
 		base_fds = count_fds(); base_maps = vf_mmap_live; base_heap = heap_now();
 		puts("ok"); return 0;
 	}
-	if (!strcmp(op, "res.table") && na == 5) {
+	if (!strcmp(op, "res.table") && na >= 5) {
+		/* res.table <t> <n> <stride> <off> [codec [vlen]]: vlen > 0 pads every value with that many identical bytes
+		   (blocks that compress far better than any first guess of a decompressor) */
 		char p[360]; tpath(p, sizeof p, a[1]); unlink(p);
-		struct mtbl_writer_options *wo = mtbl_writer_options_init(); mtbl_writer_options_set_block_size(wo, 64);
-		mtbl_writer_options_set_compression(wo, MTBL_COMPRESSION_NONE);
+		long codec = na > 5 ? atol(a[5]) : 0, vlen = na > 6 ? atol(a[6]) : 0;
+		struct mtbl_writer_options *wo = mtbl_writer_options_init(); mtbl_writer_options_set_block_size(wo, vlen ? 8192 : 64);
+		mtbl_writer_options_set_compression(wo, (mtbl_compression_type)codec);
 		struct mtbl_writer *w = mtbl_writer_init(p, wo); mtbl_writer_options_destroy(&wo);
 		if (!w) { puts("null"); return 0; }
-		long n = atol(a[2]), stride = atol(a[3]), off = atol(a[4]); char kb[16], vb[32];
-		for (long i = 0; i < n; i++) { keyof(kb, i * stride + off); sprintf(vb, "v%s.%ld;", a[1], i); mtbl_writer_add(w, (uint8_t *)kb, strlen(kb), (uint8_t *)vb, strlen(vb)); }
+		long n = atol(a[2]), stride = atol(a[3]), off = atol(a[4]); char kb[16]; char *vb = malloc(64 + (size_t)vlen);
+		for (long i = 0; i < n; i++) {
+			keyof(kb, i * stride + off); int m = sprintf(vb, "v%s.%ld;", a[1], i);
+			memset(vb + m, 'z', (size_t)vlen);
+			mtbl_writer_add(w, (uint8_t *)kb, strlen(kb), (uint8_t *)vb, (size_t)m + (size_t)vlen);
+		}
+		free(vb);
 		mtbl_writer_destroy(&w); puts("ok"); return 0;
 	}
 	if (!strcmp(op, "res.bad") && na == 2) {
